@@ -75,17 +75,53 @@ def build_harness():
     return rc == 0, out
 
 
+# extra property modules per property: (module under Garnish.Props, namespace to list, regex on the short name or None)
+AUDIT_EXTRA = {
+    'C01': [('C01Compile', 'Garnish.Props.C01', None)],
+    'C06': [('C06Static', 'Garnish.Props.C06', None)],
+    'C10': [('C01Compile', 'Garnish.Props.C01', r'^(C10_|C01_compile_correct$)')],
+    'C17': [('C01Compile', 'Garnish.Props.C01', r'^(C17_|C01_compile_correct$|compile_env$)')],
+    'C11': [('C11Refine', 'Garnish.Props.C11Refine', None)],
+    'C18': [('C18Lex', 'Garnish.Props.C18Lex', None), ('C18Parse', 'Garnish.Props.C18Parse', None)],
+}
+
+
+def audit_modules(prop):
+    return [f'Garnish.Props.{prop}'] + [f'Garnish.Props.{m}' for m, _, _ in AUDIT_EXTRA.get(prop, []) if os.path.exists(os.path.join(LEAN, 'Garnish', 'Props', m + '.lean'))]
+
+
 def audit(prop):
-    """axioms + statements of every theorem in Garnish.Props.<prop>; returns (ok, list[dict], log)"""
-    src = f'import Garnish.Props.{prop}\nimport Garnish.Audit\n#eval Garnish.Audit.run `Garnish.Props.{prop}\n'
+    """axioms + statements of every theorem in Garnish.Props.<prop> (and the extra modules of AUDIT_EXTRA); returns (ok, list[dict], log)"""
+    specs = [(prop, f'Garnish.Props.{prop}', None)] + [e for e in AUDIT_EXTRA.get(prop, []) if os.path.exists(os.path.join(LEAN, 'Garnish', 'Props', e[0] + '.lean'))]
+    mods = []
+    for m, _, _ in specs:
+        if m not in mods:
+            mods.append(m)
+    nss = []
+    for _, ns, _ in specs:
+        if ns not in nss:
+            nss.append(ns)
+    src = ''.join(f'import Garnish.Props.{m}\n' for m in mods) + 'import Garnish.Audit\n' + ''.join(f'#eval Garnish.Audit.run `{ns}\n' for ns in nss)
     os.makedirs(WORK, exist_ok=True)
     path = os.path.join(WORK, f'audit_{prop}.lean')
     open(path, 'w').write(src)
     rc, out = sh(['lake', 'env', 'lean', path], cwd=LEAN, timeout=1200)
     thms = []
+    seen = set()
     for line in out.splitlines():
         if line.startswith('AUDIT\t'):
             _, name, kind, axioms, stmt = line.split('\t', 4)
+            if name in seen:
+                continue
+            short = name.rsplit('.', 1)[-1]
+            ns = name.rsplit('.', 1)[0]
+            keep = False
+            for _, sns, flt in specs:
+                if name.startswith(sns + '.') and (flt is None or re.search(flt, short)):
+                    keep = True
+            if not keep:
+                continue
+            seen.add(name)
             thms.append({'name': name, 'kind': kind, 'axioms': [a for a in axioms.split(',') if a], 'statement': stmt})
     return rc == 0, thms, out
 
@@ -339,7 +375,7 @@ def standard_proof_obligations(ctx, lean_targets=None):
     prop = ctx.prop
     ok, out = gen_tables()
     ctx.oblige('gen_tables', 'translator', ok, out[-2000:] if not ok else '')
-    ok, out = build_lean([f'Garnish.Props.{prop}'] + (lean_targets or []))
+    ok, out = build_lean(audit_modules(prop) + (lean_targets or []))
     if not ok:
         # find which theorem(s) failed
         errs = re.findall(r'error: (\S+\.lean:\d+:\d+): (.*)', out)
